@@ -187,7 +187,10 @@ class Graph:
         extra_opset_req = set(args)
         if self._extra_opset_req is not None:
             extra_opset_req |= self._extra_opset_req
-        return replace(self, _extra_opset_req=extra_opset_req)
+        # Subgraphs are adapted against these requirements at build time: do not share the cache.
+        return replace(
+            self, _extra_opset_req=extra_opset_req, _build_result=_build.Cached()
+        )
 
     def _with_constructor(self, fun: Callable[..., Iterable[Var]]) -> "Graph":
         """Assign a constructor that constructed this Graph given ``self.requested_arguments``."""
